@@ -15,7 +15,7 @@ LEX = ['lex', 'lexscript']
 PARSE = ['lex', 'parse', 'validate']
 PRINT = ['String', 'GoString', 'Marshal']
 SQL = ['Render', 'RenderParam', 'ToPostgres', 'ToParameterizedPostgres']
-JSONRT = ['Decode', "validate'", 'decoded.String', 'decoded.GoString', 'decoded.Render', 'decoded.RenderParam', 'decoded.Marshal']
+JSONRT = ['EncoderCst', 'Decode', "validate'", 'decoded.String', 'decoded.GoString', 'decoded.Render', 'decoded.RenderParam', 'decoded.Marshal']
 UNTRUSTED = ['DecodeUntrusted', 'ValidateDecoded', 'untrusted.String', 'untrusted.GoString', 'untrusted.Render', 'untrusted.RenderParam', 'untrusted.Marshal']
 CUSTOM = ['CustomRender', 'CustomRenderTrace']
 
@@ -123,11 +123,11 @@ PROPS = {
         'pairs (without / with a default field that does not occur in the query) of random trees and token sequences, field names needing quoting',
         '', []),
     'C12': P(
-        ['C12_encode_returns', 'C12_atoi_itoa', 'C12_int_leaf_roundtrip', 'C12_string_leaf_roundtrip', 'C12_operator_names_roundtrip', 'C12_operator_names_total', 'C12_decoder_uses_from_string'],
+        ['C12_encode_returns', 'C12_decode_encode_roundtrip', 'C12_atoi_itoa', 'C12_int_leaf_roundtrip', 'C12_string_leaf_roundtrip', 'C12_operator_names_roundtrip', 'C12_operator_names_total', 'C12_decoder_uses_from_string'],
         [('corpus', 0), ('rand', 6000), ('trees', 2000)],
         [('corpus', 0), ('rand', 80000), ('trees', 30000)],
         PARSE + ['Marshal'] + JSONRT,
-        'partial: encoder total, integer and string leaves round-trip (for all int64 / all strings); the whole-tree round trip (decode, validate, identical bytes/print/SQL, deep equality outside the listed exceptions) is decided by C12_check per accepted query.',
+        'encoder total; operator names round-trip; decode(encode e) = e proved for every tree of the parser shape whose leaves have the kind the decoder infers (Spec/Inferable.ki_b) under three stated facts about encoding/json, strconv and the textual boundary heuristic on the encoder own output; the syntax tree of the encoder output (Spec/Cst.v) is compared with the implementation bytes per case. Decided per accepted query by C12_check: the clauses for trees outside ki_b (identical bytes / print / SQL after the round trip when leaf kinds change: quoted patterns, integer-valued floats = K12) and that Parse results which are not listed exceptions satisfy ki_b.',
         'every accepted generated query is encoded, decoded, re-encoded and re-rendered; non-trivial = accepted and encoded',
         '', ['oracle fact: ParseFloat rejects a text starting with a double quote']),
     'C13': P(
